@@ -156,3 +156,8 @@ Definition snap_heap (s : snapshot) : gmap positive task :=
 Definition full_snapshot (eps : Z) (c : cache) : snapshot :=
   let s := take_snapshot eps c in
   mkSnap (snap_heap s) (s_jobs s) (s_nodes s) (s_nodelist s) (s_queues s).
+
+(* right after a batch of binds: every accepted context whose API side failed (pre-binder or
+   binder) is queued for a resync *)
+Definition law_failed_binds_queued (c : cache) (keys : list (positive * positive)) : bool :=
+  forallb (fun k => bool_decide (k ∈ c_errq c)) keys.
